@@ -119,6 +119,12 @@ func (bs *blockState) val(v ssa.Value) Val {
 	if lv, ok := e.addrs[v]; ok && lv.kind == "ptr" {
 		return Val{v.Type(), []string{lv.obj}}
 	}
+	if lv, ok := e.addrs[v]; ok && lv.kind == "field" {
+		// the address of a field escapes as a value: an interior pointer
+		r := subRef(lv.obj, lv.fidx)
+		e.fieldPtrs[r] = lv
+		return Val{v.Type(), []string{r}}
+	}
 	unsupp("value %s (%T) has no encoding", v.Name(), v)
 	return Val{}
 }
@@ -385,6 +391,9 @@ func (e *Enc) loadGlobal(st *State, g *ssa.Global) Val {
 				if _, isPtr := t.Underlying().(*types.Pointer); isPtr && globalInitNonNil(g) {
 					e.def(app("<", "0", name))
 				}
+				if _, isI := t.Underlying().(*types.Interface); isI && j == 0 && globalInitErrorsNew(g) {
+					e.def(and(not(eq(name, "0")), not(eq(name, e.tagByName("*res.Error")))))
+				}
 			}
 			v.C = append(v.C, name)
 		}
@@ -589,7 +598,7 @@ func (bs *blockState) concat(a, b Val, ins ssa.Instruction) Val {
 	arr := e.fresh("cat", SArr)
 	n := add(a.C[2], b.C[2])
 	// the runtime refuses over-long strings; memory exhaustion is outside the model (DESIGN 2.1)
-	bs.assumeG(app("<=", n, "maxlen"))
+	bs.assumeG(app("<=", n, "maxcap"))
 	q := e.freshName("k")
 	// one definition by absolute index of the new array, directed new -> old
 	e.def(fmt.Sprintf("(forall ((%s Int)) (! (=> (and (<= 0 %s) (< %s %s)) (= (select %s %s) (ite (< %s %s) (select %s (+ %s %s)) (select %s (+ %s (- %s %s)))))) :pattern ((select %s %s))))",
@@ -887,6 +896,26 @@ func globalInitNonNil(g *ssa.Global) bool {
 					return true
 				default:
 					_ = v
+				}
+			}
+		}
+	}
+	return false
+}
+
+// globalInitErrorsNew: the package initialiser stores errors.New(...) / fmt.Errorf(...) into g.
+func globalInitErrorsNew(g *ssa.Global) bool {
+	init := g.Pkg.Func("init")
+	if init == nil {
+		return false
+	}
+	for _, b := range init.Blocks {
+		for _, ins := range b.Instrs {
+			if s, ok := ins.(*ssa.Store); ok && s.Addr == ssa.Value(g) {
+				if c, ok := s.Val.(*ssa.Call); ok {
+					if f := c.Call.StaticCallee(); f != nil && f.Pkg != nil && (f.Pkg.Pkg.Path() == "errors" && f.Name() == "New" || f.Pkg.Pkg.Path() == "fmt" && f.Name() == "Errorf") {
+						return true
+					}
 				}
 			}
 		}
